@@ -25,8 +25,9 @@
 //!  * a client that is not hostile and was never told to leave must not be found disconnected
 //!    with a reason that only a foreign packet or a foreign API call can produce
 //!    (PacketDeserialization, ReceivedInvalidChannelId, InvalidSliceMessage, DisconnectedBy*,
-//!    Transport): the harness delivered only its own peer's datagrams to it. Memory / serialization
-//!    reasons (F3, F4 territory) are counted, not judged.
+//!    Transport): the harness delivered only its own peer's datagrams to it. Since F3 / F4 / F26 are repaired
+//!    memory and serialization reasons are judged as well (a channel that ends the connection for a limit it
+//!    never exceeded takes the client's other channels with it).
 //!  * the shared `OrderedOracle` (both directions, broadcasts included in each target's stream)
 //!    and `UnorderedOracle` (client->server only, with promptness) run on all undisturbed
 //!    connections with their C01/C02 clauses.
@@ -141,8 +142,12 @@ fn reason_class(r: DR) -> &'static str {
     }
 }
 
-fn foreign_cause(r: DR) -> bool {
-    matches!(reason_class(r), "Transport" | "DisconnectedByClient" | "DisconnectedByServer" | "PacketDeserialization" | "ReceivedInvalidChannelId" | "InvalidSliceMessage")
+/// Every reason is judged: the driver keeps every submission inside the channel windows and delivers to an undisturbed
+/// client only its own peer's datagrams, so nothing - a foreign packet, a foreign API call, or a channel of its own
+/// running into a limit it never exceeded - may end its connection (and with it the traffic of its other channels).
+/// (Memory and serialization reasons used to be counted only, while F3 / F4 were open.)
+fn foreign_cause(_r: DR) -> bool {
+    true
 }
 
 // ------------------------------------------------------------------------------------------------
@@ -940,7 +945,8 @@ pub fn one_run(ctx: &Ctx, out: &mut Outcome, run_seed: u64) {
     }
     let gen = CfgGen {
         max_clients: 8,
-        small_budgets: false,
+        // tight channel budgets in a third of the sessions: a stalled stream then sits close to its limit
+        small_budgets: r.chance(1, 3),
         min_bytes_per_tick: 6000,
         profiles: ALL_RANDOM_PROFILES.to_vec(),
     };
